@@ -84,6 +84,17 @@ def _failed_early(r, k, recs):
             return [recs[pf[0]], r]
 
 
+# Recorded finding (not part of the default runs: the engine restarts from a stale snapshot only if the node
+# was idle when it was taken): the snapshot is taken while payment 2 waits in the holding cell of the channel
+# (send_payment returned Ok); it is sent afterwards and becomes claimable at the recipient; the payer restarts
+# from the snapshot: LDK closes the channel, fails the "dropped" holding-cell HTLC and forgets the payment.
+PROBES = [("stale_restart_forgets_holding_cell_htlc", {"cfg": {"topo": "line", "n": 3}, "ops": [
+    {"op": "reg", "node": 2, "reg": 1, "amt": 3000000}, {"op": "reg", "node": 2, "reg": 2, "amt": 5000000},
+    {"op": "send", "from": 0, "id": 1, "reg": 1, "paths": [[1, 2]], "amts": [3000000]},
+    {"op": "send", "from": 0, "id": 2, "reg": 2, "paths": [[1, 2]], "amts": [5000000]},
+    {"op": "save", "node": 0}, {"op": "pump"},
+    {"op": "restart", "node": 0, "use": "stale", "allow_unclean": True}, {"op": "settle"}]})]
+
 SELFTESTS = [("second-PaymentSent", _second_sent), ("PaymentSent-reported-as-failed", _sent_as_failed),
              ("recipient-never-claimed", _claim_dropped), ("fee-off-by-one", _fee_off),
              ("duplicate-id-accepted", _dup_accepted), ("blamed-channel-moved", _blame_moved),
@@ -100,11 +111,14 @@ def run(tier, seed):
         n_tlc=6000 if thorough else 700, n_rand=12000 if thorough else 800,
         need={"ev_PaymentSent": 50, "ev_PaymentFailed": 50, "ev_PaymentPathFailed": 50, "restart": 30, "send_dup": 20,
               "send_multipart": 50, "runs_with_repeated_PaymentSent": 1, "runs_with_repeated_PaymentFailed": 1, "quiet": 100},
-        selftests=SELFTESTS, pick=pick,
+        selftests=SELFTESTS, pick=pick, probes=PROBES,
         assumptions=pc.COMMON_ASSUMPTIONS + [
             "the channel named by PaymentPathFailed is accepted if it is the hop on which the failing node received the "
             "HTLC or the hop it could not use; it is compared with the ground truth only for the first use of a payment "
             "id and before any restart of the payer (later events may stem from an earlier use or be repetitions)",
+            "a restart from a snapshot the monitors have overtaken (LDK closes those channels) is driven only from snapshots "
+            "taken while the payer was idle (events handled, links up and empty), the run then ends with list_recent_payments; "
+            "the non-idle case is a recorded finding (probe stale_restart_forgets_holding_cell_htlc)",
             "the balance check applies to payers that never receive or forward in the run; PaymentSent.fee_paid_msat = None "
             "disables it for that payer",
         ])
